@@ -12,7 +12,7 @@ for a in "$@"; do
 done
 case "$name" in
   pairing_plus)
-    exec "$rustc" "$@" -Zinstrument-mcount -Copt-level=3 -Zinline-mir=no -Cllvm-args=-inline-threshold=-1000000 -Cllvm-args=-inlinehint-threshold=-1000000 -Cdebug-assertions=off -Coverflow-checks=off -Cforce-frame-pointers=yes ;;
+    exec "$rustc" "$@" -Zinstrument-mcount -Copt-level=3 -Zinline-mir=no -Zmerge-functions=disabled -Cllvm-args=-inline-threshold=-1000000 -Cllvm-args=-inlinehint-threshold=-1000000 -Cdebug-assertions=off -Coverflow-checks=off -Cforce-frame-pointers=yes ;;
   pp_sim)
     exec "$rustc" "$@" --cfg pp_mcount -Cforce-frame-pointers=yes ;;
   *)
